@@ -9,6 +9,7 @@ def reg():
     r = V.Registry()
     for c in complex_contagion.contracts():
         r.add(c)
+    r.lib_install.append(complex_contagion.install)
     return r
 
 
@@ -30,5 +31,5 @@ def run(tier, seed):
                            'scripted random source, 4 models (SIR, SIRS, threshold, cumulative exposure) x influence sets returned as list / set / one-shot iterator / generator / depending on the '
                            'node\'s new status x 5 random initial conditions on a 7-node graph with isolated nodes, tmin in {0, 2.5, -1}: at every step the clock rate equals the sum of the user\'s rates '
                            'over the current statuses, the acting node had a positive rate and takes the chooser\'s status, the run only stops early when all rates are 0 (floating-point rates)'))
-    rep.not_covered += ['return_full_data=True path (node histories)']
+    rep.not_covered += ['summary() of the histories of the full-data object (bounded stand-ins of C10)']
     return rep, util.native_replayer
